@@ -110,8 +110,8 @@ func TestCheckAfterSaveBesideConcurrentChecks(t *testing.T) {
 		narrow := rapid.SampledFrom([]string{"/live/other", "/x", "", "/live/cam1/sub"}).Draw(t, "narrow")
 		wide := rapid.SampledFrom([]string{"/live/*", "*", "/live/cam1", "/live/+"}).Draw(t, "wide")
 		path := "/live/cam1"
-		pollers := rapid.IntRange(1, 6).Draw(t, "pollers")
-		rounds := rapid.IntRange(150, 600).Draw(t, "rounds")
+		pollers := rapid.IntRange(2, 8).Draw(t, "pollers")
+		rounds := rapid.IntRange(400, 1500).Draw(t, "rounds")
 		install("c16memo", wide, wide, false, false)
 		var stop int64
 		var wg sync.WaitGroup
